@@ -1,4 +1,5 @@
 mod c20;
+mod c20_iface;
 mod c20_net2;
 mod c25;
 
